@@ -52,6 +52,7 @@ type parser struct {
 	tokenQueue    []token            // token queue that the lexer tokenized
 	variableNames map[string]bool    // variable names in a message to check duplicates
 	ellipsisCount int                // ellipsis count in a message
+	skipSizeCheck bool               // true if the data item just parsed is a placeholder
 	messages      []*ast.DataMessage // parsed messages
 	errors        []parseError       // parsing errors
 	warnings      []parseError       // parsing warnings
@@ -282,10 +283,11 @@ func (p *parser) parseDataItem() (item ast.ItemNode, ok bool) {
 		return ast.NewEmptyItemNode(), false
 	}
 
-	if item.Size() >= 0 {
+	if item.Size() >= 0 && !p.skipSizeCheck {
 		// (ASCIINode with variable).Size() == -1
 		p.checkDataItemSizeError(item.Size(), sizeStart, sizeEnd, tokenDataItemSize)
 	}
+	p.skipSizeCheck = false
 
 	if t, ok := p.accept(tokenTypeRightAngleBracket); !ok {
 		p.errorf(t, "expected '>', found %q", t.val)
@@ -449,7 +451,10 @@ func (p *parser) parseASCII(minLength, maxLength int) (item ast.ItemNode, ok boo
 
 			if _, ok := p.variableNames[t.val]; ok {
 				p.errorf(t, "duplicated variable name %q", t.val)
-				return ast.NewASCIINode(strings.Repeat("*", minLength)), true
+				// The placeholder does not have the declared size (which is
+				// input-controlled and can be huge); skip its size check.
+				p.skipSizeCheck = true
+				return ast.NewASCIINode(""), true
 			} else {
 				p.variableNames[t.val] = true
 				return ast.NewASCIINodeVariable(t.val, minLength, maxLength), true
